@@ -295,9 +295,12 @@ def _check_summaries(prog: Program, res: Result):
     for p in fi.params():
         st.env[p] = Rat.atom(p)
     # straight-line locals needed by the result fields (max_eft = max(design.ghe.hp_eft) ...)
-    for s in fi.node.body:
-        if isinstance(s, ast.Assign) and len(s.targets) == 1 and isinstance(s.targets[0], ast.Name) and isinstance(s.value, ast.Call) and attr_chain(s.value.func) in ("max", "min"):
-            eng._s_Assign(s, st)
+    for s in fi.node.body:  # every top-level assignment to locals, in order (temporaries, tuple results of helpers that were expanded at load time)
+        if isinstance(s, ast.Assign) and len(s.targets) == 1 and all(isinstance(x, ast.Name) for x in (s.targets[0].elts if isinstance(s.targets[0], ast.Tuple) else [s.targets[0]])):
+            try:
+                eng._s_Assign(s, st)
+            except AnalysisError:
+                pass
     fields = {}
     for n in ast.walk(fi.node):
         if isinstance(n, ast.Dict):
@@ -348,8 +351,11 @@ def _check_summaries(prog: Program, res: Result):
     for p in f3.params():
         s3.env[p] = Rat.atom(p)
     for s in f3.node.body:
-        if isinstance(s, ast.Assign) and len(s.targets) == 1 and isinstance(s.targets[0], ast.Name) and isinstance(s.value, ast.Call) and attr_chain(s.value.func) in ("max", "min"):
-            e3._s_Assign(s, s3)
+        if isinstance(s, ast.Assign) and len(s.targets) == 1 and all(isinstance(x, ast.Name) for x in (s.targets[0].elts if isinstance(s.targets[0], ast.Tuple) else [s.targets[0]])):
+            try:
+                e3._s_Assign(s, s3)
+            except AnalysisError:
+                pass
     rows = {}
     for n in ast.walk(f3.node):
         if isinstance(n, ast.Call) and attr_chain(n.func) == "self.d_row" and len(n.args) >= 3 and isinstance(n.args[1], ast.Constant):
